@@ -1,0 +1,5 @@
+//go:build !verif
+
+package netutil
+
+func vhook(*IPv4Filter, string) {}
